@@ -718,6 +718,10 @@ func (x *Exec) havocLoc(st *State, loc string, env map[string]binding, pkg strin
 		}
 		return
 	}
+	if hn, ok := x.allFieldDesig(loc, pkg); ok { // all(T.f): field f of every object of type T
+		x.havocHeap(st, hn)
+		return
+	}
 	if i := strings.Index(loc, "("); i > 0 && strings.HasSuffix(loc, ")") { // ghost heap g(obj, ...)
 		gname := loc[:i]
 		if g, ok := x.P.Ghosts[gname]; ok {
@@ -872,6 +876,10 @@ func (x *Exec) heapsOfModifies(ct *gcl.Contract, sig *types.Signature, iface boo
 				continue
 			}
 		}
+		if hn, ok := x.allFieldDesig(loc, ct.Pkg); ok {
+			hs = append(hs, hn)
+			continue
+		}
 		// x.f / x[*] / x.*: resolve the static type of x from the signature
 		names := x.heapNamesOfDesignator(loc, ct, sig, iface)
 		if names == nil {
@@ -978,4 +986,32 @@ func mustParse(s string) gcl.Expr {
 		return gcl.Ident{Name: "$parse_error"}
 	}
 	return e
+}
+
+// allFieldDesig resolves the designator all(T.f) - the field f of every object of the struct type T (a whole field heap).
+func (x *Exec) allFieldDesig(loc, pkg string) (string, bool) {
+	if !strings.HasPrefix(loc, "all(") || !strings.HasSuffix(loc, ")") {
+		return "", false
+	}
+	inner := strings.TrimSpace(loc[len("all(") : len(loc)-1])
+	i := strings.LastIndex(inner, ".")
+	if i <= 0 {
+		return "", false
+	}
+	t := x.specParamType(inner[:i], pkg)
+	if t == nil {
+		return "", false
+	}
+	t = deref(t)
+	stt, ok := t.Underlying().(*types.Struct)
+	if !ok {
+		return "", false
+	}
+	for k := 0; k < stt.NumFields(); k++ {
+		if stt.Field(k).Name() == inner[i+1:] && !isAggregate(stt.Field(k).Type()) {
+			hn, _ := x.fieldHeap(t, k)
+			return hn, true
+		}
+	}
+	return "", false
 }
